@@ -27,18 +27,20 @@ CLAIMED = {
         technique='Coq refinement proofs (engine models = machine definition) + model/implementation correspondence evaluated in Coq'),
     'C02': dict(
         category='proof',
-        text='Denotation spec (Spec/DenoteSpec.v) with a proved-sound checker (C02_check_denotes_sound, Qed) that is evaluated '
-             'inside Coq on the real assembler\'s image, segments and label table for every generated primitive program '
-             '(x w in {8,16,32,64} x fjm v0..3), including wflip chains executed on the machine definition; exact '
-             'correspondence with the executable layout model Model/Layout.v; universal theorems for the address/label '
-             'clauses and the emitted-segment invariant.',
+        text='C02_sound (Qed, one theorem): for every primitive program, width and fjm version, if the transcription of the '
+             'assembler (Model/Layout.v: preprocessor for primitive statements, BinaryData with the wflip sharing table and '
+             'pad-hole reuse, labels_resolve, writer and reader) returns an image, that image satisfies the denotation spec '
+             'Spec/DenoteSpec.v: statement addresses, labels, op words, reserved zero ranges, loadable segments, and every '
+             'wflip statement EXECUTED ON THE MACHINE DEFINITION flips exactly the set bits of v in word a, each once, in '
+             'max 1 (popcount v) ops, and arrives at r, with auxiliary ops only in pad holes / the wflip area and never on the '
+             'input cell (C02_wflip_chain_invariant, C02_wflip_exec). C02_check_denotes_sound: a proved-sound checker evaluated '
+             'inside Coq on the REAL assembler\'s image, segments and label table for every generated program (x w in '
+             '{8,16,32,64} x fjm v0..3), plus exact image correspondence with Layout.v; rejections compared by error class.',
         design_ref='DESIGN.md section 4, C02',
-        note='universal theorems: all non-wflip clauses of the denotation (C02_sound_static_partial, guards F17/F18), wflip chain '
-             'execution on the machine definition for any image (C02_wflip_exec), no chain op on the input cell '
-             '(C02_aux_not_on_io_partial), and Denotes from one explicit hypothesis (C02_sound_modulo_chains_partial: the '
-             'sharing-table chain invariant, still unproved); that clause is decided per program by the proved-sound checker; '
-             'lexing and LALR parsing are shared with the implementation through the AST dump; F8, F16 fixed; F17, F18 known.',
-        technique='Coq-certified per-program checker (soundness theorem) + layout model correspondence + partial universal theorems'),
+        note='Guards of C02_sound = known findings F17 (lexical_labels) and F18 (reserves_nonneg). The theorems are about the '
+             'transcription, tied to the code per run by exact image correspondence and the certified checker on real output; '
+             'lexing and LALR parsing are shared with the implementation through the AST dump. F8, F16 fixed.',
+        technique='Coq soundness theorem of the assembler model w.r.t. a denotation spec (wflip chains run on the machine) + certified per-program checker on real output'),
     'C03': dict(
         category='proof',
         text='Textual inliner spec (Spec/InlineSpec.v) and full transcription of the preprocessor (Model/Macro.v). Qed theorems: '
